@@ -107,6 +107,15 @@ def oracle(ctx, seeds=None):
     rng = ctx.rng
     for i in range(ctx.n(140, 2500)):
         cfg = cfg1d.rand_config(rng, smooth=(i % 2 == 0))
+        if i % 7 == 3:
+            # every named Euler boundary kernel on either side, with reconstructions whose every operation commutes exactly with
+            # powers of two: the bit-for-bit clause of the change of units is decided on these (no tolerance)
+            cfg = cfg1d.rand_config(rng, smooth=True, model='euler', per=False, units=False, flux=str(rng.choice(['hlle', 'hllc', 'centered'])),
+                                    scheme=[['extrapol1'], ['muscl', 'minmod'], ['extrapol2'], ['muscl', 'superbee']][(i // 7) % 4])
+            W_ = cfg['prim']
+            kL, kR = cfg1d.EULER_BCS[(i // 7) % 10], cfg1d.EULER_BCS[(3 * (i // 7) + 1) % 10]
+            cfg['bcL'] = cfg1d.euler_bc_params(rng, kL, cfg['gamma'], (W_[0][0], W_[1][0], W_[2][0]))
+            cfg['bcR'] = cfg1d.euler_bc_params(rng, kR, cfg['gamma'], (W_[0][-1], W_[1][-1], W_[2][-1]))
         if cfg['bcL']['type'] == 'per' and cfg['mesh']['kind'] == 'morphed':
             cfg['mesh'] = cfg1d.rand_faces(rng, cfg['n'], 'uni')
         model = cfg['model']
@@ -198,8 +207,9 @@ def oracle(ctx, seeds=None):
                 # bit for bit is demanded wherever every operation of the code commutes exactly with power-of-two factors; it cannot
                 # be where non-integer powers / roots of dimensional mixtures (total-quantity and characteristic boundary states),
                 # Python-scalar pow() (Burgers flux loop), the nozzle section polynomial or the regularised limiters (K1) enter
-                inexact = (lim in ('vanalbada', 'vanleer') or model in ('burgers', 'nozzle')
-                           or any(b_ in ('insub', 'insub_cbc', 'insup', 'outsub_qtot', 'outsub_nrcbc', 'outsub_rh') for b_ in bct))
+                # (the Euler boundary kernels take non-integer powers of DIMENSIONLESS ratios only - p1/p, ptot/p, 1 + (g-1)/2 M^2 -
+                #  and are bit-for-bit equivariant like the fluxes: a rewrite that takes a power of a dimensional quantity is reported)
+                inexact = (lim in ('vanalbada', 'vanleer') or model in ('burgers', 'nozzle'))
                 if err <= 1e-13 and inexact:
                     # last-bit differences (libm pow() on scalars is not exactly scale-equivariant): counted, not a failure
                     res.count('units-not-bitwise-within-1e-13'); res.count('nb:%s:%s:%s:%s:%s:%s:%s' % (model, cfg['flux'], bct[0], bct[1], cfg['scheme'][0], lim, cfg['mesh']['kind'])); continue
